@@ -3,14 +3,14 @@
 package main
 
 import (
-	"sync"
-	"bytes"
 	"bufio"
+	"bytes"
 	"fmt"
 	"os"
 	"path/filepath"
 	"strconv"
 	"strings"
+	"sync"
 
 	"github.com/free5gc/chf/cdr/cdrFile"
 )
